@@ -433,7 +433,7 @@ class Stats:
         self.first = None
         self.fs_writes = self.fs_opens = self.clock_reads = 0
         self.op_counts = Counter()
-        self.aborts_configured = self.io_faults_configured = 0
+        self.aborts_configured = self.io_faults_configured = self.allocfail_configured = 0
 
     def nontrivial(self, rec):
         subj = {"C14": model.PUBLIC_OPS, "C12": ("canon", "serialize"), "C16": ("permute",)}[self.prop]
@@ -451,7 +451,8 @@ class Stats:
             self.op_counts[f"{o['op']}:{o['st']}"] += 1
         for _, ops in model.spec_clients(spec):
             for o in ops:
-                self.aborts_configured += "abort" in o
+                self.aborts_configured += "abort" in o and o["abort"].get("exc") != "MemoryError"
+                self.allocfail_configured += "abort" in o and o["abort"].get("exc") == "MemoryError"
                 self.io_faults_configured += "io_fault" in o
         self.cls[rec["cls"]] += 1
         self.hs[rec["hashseed"]] += 1
